@@ -48,7 +48,7 @@ class Exec:
         s.called = set(); s.path_samples = []; s.completed_models = []; s.keep_models = 0
         s.domain_checks = False; s.domain_issues = []; s.record_reads = False
         s.srt = z3.RealSort() if mode == 'real' else F64
-        s.deadline = None; s.fork_select = True; s.libm_axioms = True; s.vcache = {}; s.slicing = (mode == 'real')
+        s.deadline = None; s.fork_select = True; s.libm_axioms = True; s.libm_mono = True; s.ackermann = True; s.ack_vars = {}; s.ack_keep = []; s.vcache = {}; s.slicing = (mode == 'real')
     # ------------------------------------------------------------ solver
     def vars_of(s, e):
         """uninterpreted constants and function symbols occurring in e (cached per AST id)"""
@@ -93,9 +93,44 @@ class Exec:
             if dropped: cov = need
         else: sol.add(*st.pc)
         sol.add(*extra)
+        if s.mode == 'real' and s.ackermann:
+            cs = s.ackermannize(list(sol.assertions()))
+            if cs is not None:
+                sol = z3.Solver(); sol.set('timeout', s.qtimeout); sol.add(*cs); cov = frozenset()     # model lacks the function interpretations: never used as a cache
         t = time.time(); r = sol.check(); s.stats['solver_s'] += time.time() - t; s.stats['queries'] += 1
         if r == z3.unknown: s.stats['unknown'] += 1
         return r, ((sol.model(), cov) if (r == z3.sat and want_model) else None)
+    def ackermannize(s, cs):
+        """replace every application of an uninterpreted function by a fresh real constant and add the congruence instances
+        (args equal -> results equal) for each pair of applications of the same function: equisatisfiable, and pure QF_NRA for nlsat"""
+        apps = {}; seen = set(); stack = list(cs)
+        while stack:
+            x = stack.pop(); i = x.get_id()
+            if i in seen: continue
+            seen.add(i)
+            if z3.is_app(x):
+                if x.num_args() > 0 and x.decl().kind() == z3.Z3_OP_UNINTERPRETED: apps[i] = x
+                stack.extend(x.children())
+        if not apps: return None
+        order = sorted(apps.values(), key=lambda a: len(str(a)) if False else a.get_id())
+        pairs = []
+        for a in order:
+            v = s.ack_vars.get(a.get_id())
+            if v is None:
+                srt = a.sort()
+                v = z3.Const('ack!%d' % a.get_id(), srt); s.ack_vars[a.get_id()] = v; s.ack_keep.append(a)
+            pairs.append((a, v))
+        sub = lambda e: z3.substitute(e, *pairs)
+        out = [sub(c) for c in cs]
+        byf = {}
+        for a, v in pairs: byf.setdefault(a.decl().name(), []).append((a, v))
+        for f, lst in byf.items():
+            for i in range(len(lst)):
+                for j in range(i + 1, len(lst)):
+                    a, va = lst[i]; b, vb = lst[j]
+                    eqs = [sub(a.arg(k)) == sub(b.arg(k)) for k in range(a.num_args())]
+                    out.append(z3.Implies(z3.And(*eqs) if len(eqs) > 1 else eqs[0], va == vb))
+        return out
     def full_model(s, st, extra=()):
         """a model of the whole path condition (for counterexamples / replay inputs); falls back to None"""
         r, m = s.check(st, extra, full=True)
